@@ -207,14 +207,17 @@ func checkC12(tier, replay string) int {
 	stabSeqs, stabOps := c12Stability(ctx, tier)
 	ctx.Cov["operation_sequences_after_which_the_tables_were_rehashed"] = stabSeqs
 	ctx.Cov["operation_alphabet"] = stabOps
-	ctx.Cov["evaluations"] = entries + compared + aliasChecks + stabSeqs
+	// (h) the generator of the tables: regeneration is a fixed point, and its ABI filters agree with an independent model
+	genRuns := c12Generator(ctx, tier)
+	ctx.Cov["generator_runs_compared"] = genRuns
+	ctx.Cov["evaluations"] = entries + compared + aliasChecks + stabSeqs + genRuns
 	ctx.Cov["distinct_nontrivial"] = compared
 	ctx.Cov["table_entries_checked_both_directions"] = entries
 	ctx.Cov["entries_compared_with_an_independent_source"] = compared
 	ctx.Cov["entries_no_oracle_lists"] = unoracled
 	ctx.Cov["alias_and_unsupported_spellings"] = aliasChecks
 	ctx.Cov["fresh_processes_compared"] = procs
-	ctx.Cov["rule"] = "every (number, name) and (name, number) entry of the five tables is checked for mutual inversion and unambiguity, compared with every independent source that lists the name (kernel UAPI unistd headers of this image, Go's syscall tables, x/sys v0.48 tables; vendored in oracles.json) and for name agreement at the same number; every architecture variable's ID with AUDIT_ARCH_* from linux/audit.h; every alias in all single-letter case variants; 31 table-less or unknown names in case variants; table contents across fresh processes; table contents (commutative hash of both maps of all five tables plus ID/Name) after every sequence of library operations up to the stated depth over an alphabet of Validate/Assemble/Dump with canonical, re-cased, SYS_/__NR_/sys_-prefixed, foreign-architecture, numeric, empty and unknown names on every architecture, with and without conditions, and GetInfo with alias/unsupported spellings - the state must stay the initial one; non-trivial = entries for which an independent source exists"
+	ctx.Cov["rule"] = "every (number, name) and (name, number) entry of the five tables is checked for mutual inversion and unambiguity, compared with every independent source that lists the name (kernel UAPI unistd headers of this image, Go's syscall tables, x/sys v0.48 tables; vendored in oracles.json) and for name agreement at the same number; every architecture variable's ID with AUDIT_ARCH_* from linux/audit.h; every alias in all single-letter case variants; 31 table-less or unknown names in case variants; table contents across fresh processes; table contents (commutative hash of both maps of all five tables plus ID/Name) after every sequence of library operations up to the stated depth over an alphabet of Validate/Assemble/Dump with canonical, re-cased, SYS_/__NR_/sys_-prefixed, foreign-architecture, numeric, empty and unknown names on every architecture, with and without conditions, and GetInfo with alias/unsupported spellings - the state must stay the initial one; the generator arch/mk_syscalls_linux.go of the tree is built and run offline against a local mirror (CONNECT proxy + throw-away certificate): once on kernel source files reconstructed from the checked-in tables with extra oabi rows, comments, __NR3264_ defines, sync_file_range2 and the __NR_syscalls sentinel (the output must be the checked-in tables again) and on 27 synthetic trees = every assignment of ABI columns {common,64,x32} / {common,oabi,eabi} to three rows (the output must equal an independent model of the ABI rules); non-trivial = entries for which an independent source exists"
 	ctx.Sample(map[string]any{"table": "x86_64", "name": "execve", "library": arch.X86_64.SyscallNames["execve"], "kernel_uapi": o.Tables["x86_64"]["kernel_uapi"]["execve"], "go_syscall": o.Tables["x86_64"]["go_syscall"]["execve"]})
 	ctx.Sample(map[string]any{"alias": "AMD64", "resolves_to": "x86_64"})
 	ctx.Assumptions = []string{"oracles.json was generated from this image's kernel headers and Go/x-sys sources by oracles/gen.py (provenance inside the file)", "a source that does not list a name says nothing about it"}
